@@ -995,8 +995,22 @@ func (c *Ctx) genC11() {
 			el := []xLayer{{alg: sp(uriGCM), cipher: "v", ct: t}}
 			c.xdecrypt(xKey{kind: "b", bytes: key}, el, nil, "gcm-tamper")
 		}
-		for n := 0; n < 30; n++ {
+		// every proper prefix (a shortened tag is a modification like any other), and every extension by a few bytes
+		for n := 0; n < len(ct); n++ {
 			c.xdecrypt(xKey{kind: "b", bytes: key}, []xLayer{{alg: sp(uriGCM), cipher: "v", ct: ct[:n]}}, nil, "gcm-truncated")
+		}
+		for n := 1; n <= 4; n++ {
+			c.xdecrypt(xKey{kind: "b", bytes: key}, []xLayer{{alg: sp(uriGCM), cipher: "v", ct: append(append([]byte{}, ct...), c.randBytes(n)...)}}, nil, "gcm-extended")
+		}
+		// the same for the shortest messages (empty and one-byte plaintext): the tag is all there is
+		for _, pl := range []int{0, 1, 16} {
+			p2 := c.randBytes(pl)
+			ct2 := append(append([]byte{}, nonce...), g.Seal(nil, nonce, p2, nil)...)
+			for n := len(ct2) - 16; n < len(ct2); n++ {
+				if n >= 0 {
+					c.xdecrypt(xKey{kind: "b", bytes: key}, []xLayer{{alg: sp(uriGCM), cipher: "v", ct: ct2[:n]}}, nil, "gcm-truncated")
+				}
+			}
 		}
 	}
 	// structure-aware mutation of valid two-layer elements
